@@ -14,7 +14,7 @@
    Tables: any header (also the empty name, names that are prefixes of each other: names are compared as byte strings),
    any fields (separators, quotes, CR, LF inside), any RFC 4180 rendering (which fields are quoted, LF or CRLF, final
    line break), the five separators. *)
-From BS Require Import Base CsvSpec CsvSpecProofs CsvModel CsvWriterProofs CsvReaderProofs CsvStreamProofs CsvChunks CsvHistProofs.
+From BS Require Import Base CsvSpec CsvSpecProofs CsvModel CsvWriterProofs CsvReaderProofs CsvStreamProofs CsvTotalProofs CsvChunks CsvHistProofs.
 Local Open Scope N_scope.
 
 (* ---- full strength: every header, the first column of the requested name.  False when names repeat: header a,a, row 1,2,
@@ -88,6 +88,17 @@ Theorem T_C03csv_width_rejected : forall sep chs final hdr recs text progs, allo
   (forall K stext, (0 < K)%nat -> stream_payload K stext = text -> csv_load_stream_hist K sep progs stext = Err ParsingError).
 Proof. exact hist_width. Qed.
 Print Assumptions T_C03csv_width_rejected.
+
+(* ---- ARBITRARY text (not only RFC 4180 renderings), every request program, every chunk size and chunking: the load
+   answers with rows or with a catchable ParsingError / InvalidOptions (clean, CsvTotalProofs.v); never out of fuel (no
+   hang), never a read outside the decoded buffer during in-place unescaping (the model's UB outcome), never
+   std::out_of_range from the meta vector, never std::terminate ---- *)
+Theorem T_C03csv_history_total : forall sep progs text,
+  clean (csv_load_hist sep progs text) /\
+  (forall K, (0 < K)%nat -> clean (csv_load_stream_hist K sep progs text)) /\
+  (forall early chunks, Forall (fun c => c <> []) chunks -> clean (csv_load_chunks_hist early sep progs chunks)).
+Proof. exact hist_total. Qed.
+Print Assumptions T_C03csv_history_total.
 
 (* ---- the hypotheses are satisfiable, the functions compute: header  <empty>;ab;a;"a""b" , a quoted last column asked
    for first and again, an absent name, the empty name, a name that is a prefix of another; a row nothing is asked of;
